@@ -647,6 +647,23 @@ def run_refine(seed, n):
     groups, info = [], []
     for i in range(n):
         call = F.gen_tables_call(rng, 'position')
+        if call['measure'] in JCD and rng.random() < 0.6:
+            # skewed sizes related by inclusion, threshold with 5 decimals next to the pair's similarity:
+            # where the 4-decimal rounding of the size bounds and of the required overlap can disagree
+            sk = J.skew_call(rng, call['measure'])
+            import py_stringsimjoin as ssj
+            x = set(rng.choice(sk['L']['s'].tolist()).split())
+            y = set(rng.choice(sk['R']['s'].tolist()).split())
+            o, a, b = len(x & y), len(x), len(y)
+            if o:
+                base = {'JACCARD': o / (a + b - o), 'DICE': 2.0 * o / (a + b),
+                        'COSINE': o / math.sqrt(a * b)}[call['measure']]
+                t = min(1.0, max(1e-3, round(base, rng.choice([3, 4, 5])) + rng.choice([-1e-5, 0.0, 1e-5, 2e-5])))
+            else:
+                t = sk['t']
+            sk['tok'].set_return_set(True)
+            call = dict(call, L=sk['L'], R=sk['R'], names=sk['names'], tok=sk['tok'], kind='ws', t=t, tcls='skew-edge',
+                        q=0)
         m = call['measure']
         names = call['names']
         nj = call['njobs']
